@@ -2,6 +2,8 @@ import Driver.GeoWire
 import Midgard.Model.Geodetic
 import Midgard.Generated.Ellipsoids
 import Midgard.Generated.EllipsoidFlow
+import Midgard.Model.EllArith
+import Midgard.Generated.EllipsoidArith
 
 /-! Driver for C05: ellipsoid parameters (`Rat` and `Float`), `trs2llh` / `llh2trs` (`Float`), and the
 ellipsoid attribute-flow machine over the regenerated constructor-call table. -/
@@ -34,7 +36,70 @@ def parseCls? : String → Option PCls
 def showCls : PCls → String
   | .position => "position" | .posvel => "posvel"
 
+/-! arithmetic: operands on the wire are `pos:<class>:<ellipsoid>` and `delta:<class>:<class of ref_pos>:<ellipsoid of ref_pos>` -/
+
+def parseACls? : String → Option ACls
+  | "position" => some .position | "posvel" => some .posvel
+  | "posDelta" => some .posDelta | "posvelDelta" => some .posvelDelta | _ => none
+
+def showACls : ACls → String
+  | .position => "position" | .posvel => "posvel" | .posDelta => "posDelta" | .posvelDelta => "posvelDelta"
+
+def parseOperand? (s : String) : Option Operand :=
+  match s.splitOn ":" with
+  | ["pos", c, e] => do
+    let c ← parseACls? c
+    let i ← ellIndex? e
+    pure (.pos ⟨c, some i⟩)
+  | ["delta", c, rc, e] => do
+    let c ← parseACls? c
+    let rc ← parseACls? rc
+    let i ← ellIndex? e
+    pure (.delta c ⟨rc, some i⟩)
+  | _ => none
+
+def showOperand : Operand → String
+  | .pos p => s!"pos:{showACls p.cls}:{ellName p.ell}"
+  | .delta c r => s!"delta:{showACls c}:{showACls r.cls}:{ellName r.ell}"
+
+def showVal : ValLR → String
+  | .lr true => "L+R" | .lr false => "L-R" | .rl true => "R+L" | .rl false => "R-L" | .opaqueVal => "?"
+
+def showOutcome : Outcome → String
+  | .value o v => s!"value {showOperand o} {showVal v}"
+  | .notImplemented => "NotImplemented" | .typeError => "TypeError" | .none => "None"
+  | .error => "AttributeError" | .opaque => "opaque"
+
+def parseBool? : String → Option Bool
+  | "1" => some true | "0" => some false | _ => none
+
+/-- `un:<op>` or `wd:<plus 0/1>:<delta on the left 0/1>:<ellipsoid of the difference's ref_pos>` -/
+def parseHOp? (s : String) : Option HOp :=
+  match s.splitOn ":" with
+  | ["un", o] => (parseOp? o).map .un
+  | ["wd", p, l, e] => do
+    let p ← parseBool? p
+    let l ← parseBool? l
+    let i ← ellIndex? e
+    pure (.withDelta p l (some i))
+  | _ => none
+
 def handle : List String → Option String
+  | ["c05", "arith", plus, same, l, r] => do
+    let plus ← parseBool? plus
+    let same ← parseBool? same
+    let l ← parseOperand? l
+    let r ← parseOperand? r
+    let o := binop Midgard.Generated.EllipsoidArith.branches Midgard.Generated.EllipsoidArith.factories plus same l r
+    pure s!"{showOutcome o} | spec {if wellTyped l r then showOutcome (specBinop plus l r) else "-"}"
+  | ["c05", "hflow", cls, name, ops] => do
+    let c ← parseCls? cls
+    let i ← ellIndex? name
+    let ops ← parseList? parseHOp? ops
+    match hrun Midgard.Generated.EllipsoidFlow.sites Midgard.Generated.EllipsoidArith.branches
+        Midgard.Generated.EllipsoidArith.factories ⟨c, some i⟩ ops with
+    | some r => pure s!"{showCls r.cls} {ellName r.ell}"
+    | none => pure "failed"
   | ["c05", "ell", name] => do
     let E ← ellQ? name
     pure s!"{showRat E.a} {showOpt showRat E.fInv}"
